@@ -4,6 +4,7 @@ import (
 	"github.com/goatcms/goatcore/app"
 	"github.com/goatcms/goatcore/workers"
 	"github.com/goatcms/goatcore/workers/jobsync"
+	"github.com/goatcms/goatcore/workers/verifhook"
 )
 
 // Loop is a loop on a filespace
@@ -72,6 +73,7 @@ func (loop *Loop) Run(path string) {
 	go func() {
 		producerPool.Wait()
 		loop.lifecycle.NextStep(StepClose)
+		verifhook.At("fsloop.closed")
 		close(loop.loopData.chans.dirChan)
 		close(loop.loopData.chans.fileChan)
 	}()
